@@ -144,7 +144,7 @@ FILLERS = [
 ]
 
 
-def build_program(r, fault_tokens, wrap=None, pre_defs=None):
+def build_program(r, fault_tokens, wrap=None, pre_defs=None, fault_together=True):
     """returns (tokens, keep_together, index of first fault token)"""
     toks = []
     keep = set()
@@ -165,7 +165,7 @@ def build_program(r, fault_tokens, wrap=None, pre_defs=None):
         toks.extend(["do"])
         for _ in range(r.randint(0, 2)):
             add_stmt(r.choice(FILLERS))
-        fi = add_stmt(fault_tokens, together=True)
+        fi = add_stmt(fault_tokens, together=fault_together)
         toks.extend(["end", ";"])
     elif wrap == "loop":
         toks.extend(["for", "k", "in", "[", "1", "]", "do"])
@@ -180,13 +180,24 @@ def build_program(r, fault_tokens, wrap=None, pre_defs=None):
         fi = add_stmt(fault_tokens, together=True)
         toks.extend(["end", ")", "(", ")", ";"])
     else:
-        fi = add_stmt(fault_tokens, together=True)
+        fi = add_stmt(fault_tokens, together=fault_together)
     for _ in range(r.randint(0, 3)):
         add_stmt(r.choice(FILLERS))
     if r.random() < 0.5:
         toks.pop()      # optional trailing semicolon
     return toks, keep, fi
 
+
+# faults spread over several lines: the reported line is that of the offending token (index given), i.e. the operator
+# whose application fails / the opening parenthesis of the failing call
+SPREAD_FAULTS = [
+    ("chain-sub", ["10", "-", "7", "-", "'x'"], 3), ("chain-add-sub", ["1", "+", "2", "-", "TRUE"], 3),
+    ("chain-mul", ["2", "*", "3", "*", "'x'", "*", "4"], 3), ("chain-div-mod", ["8", "/", "2", "%", "0"], 3),
+    ("chain-mixed", ["1", "+", "2", "*", "TRUE"], 3), ("chain-first", ["TRUE", "-", "1", "-", "2"], 1),
+    ("chain-compare", ["1", "+", "1", "<", "2", "+", "NULL", "<", "'a'", "-", "1"], 9),
+    ("call-args", ["length", "(", "1", ")"], 1), ("nested-call", ["string", "(", "length", "(", "5", ")", ")"], 3),
+    ("index-chain", ["[", "[", "1", "]", "]", "[", "0", "]", "[", "5", "]"], 8),
+]
 
 RUNTIME_FAULTS = [
     ("undefined-name", ["nosuchname"]),
@@ -218,11 +229,17 @@ def run_faults(spec, ctx):
         mode = r.choice(modes)
         kind = i % 3
         if kind == 0:
-            name, ft = r.choice(RUNTIME_FAULTS)
+            off = 0
+            if i % 2 == 0:
+                name, ft = r.choice(RUNTIME_FAULTS)
+                spread = False
+            else:
+                name, ft, off = r.choice(SPREAD_FAULTS)
+                spread = True
             wrap = r.choice([None, None, "block", "loop", "if", "lambda"])
-            toks, keep, fi = build_program(r, ft, wrap, pre_defs=[["def", "v0", "=", "0"]])
+            toks, keep, fi = build_program(r, ft, wrap, pre_defs=[["def", "v0", "=", "0"]], fault_together=not spread)
             text, lines = layout.render(toks, r, mode, keep_together=keep)
-            want = lines[fi]
+            want = lines[fi + off]
             ctx.case(text, nontrivial="\n" in text)
             env = ckl.functions.Environment()
             o = observe(lambda: it.interpret(text, FNAME, env), 500000)
